@@ -78,6 +78,30 @@ class CallGraph:
                     out.append(c.methods[name].qual)
         return out
 
+    def _local_registry_classes(self, f: FuncInfo, name: str) -> list[str]:
+        out: list[str] = []
+        m = f.module
+        for n in walk_no_nested(f.node):
+            val = None
+            if isinstance(n, ast.Assign) and any(isinstance(t, ast.Name) and t.id == name for t in n.targets):
+                val = n.value
+                if isinstance(val, ast.Subscript):
+                    reg = self.registry_of(m, val.value)
+                elif isinstance(val, ast.Call) and isinstance(val.func, ast.Attribute) and val.func.attr == "get":
+                    reg = self.registry_of(m, val.func.value)
+                else:
+                    reg = None
+                if reg:
+                    out += [c for c in reg if c not in out]
+            elif isinstance(n, (ast.For, ast.comprehension)):
+                it = n.iter
+                names = [x.id for x in ast.walk(n.target) if isinstance(x, ast.Name)]
+                if name in names and isinstance(it, ast.Call) and isinstance(it.func, ast.Attribute) and it.func.attr in ("items", "values"):
+                    reg = self.registry_of(m, it.func.value)
+                    if reg:
+                        out += [c for c in reg if c not in out]
+        return out
+
     def _sites_of(self, f: FuncInfo) -> list[CallSite]:
         prog, types, m = self.prog, self.types, f.module
         sites: list[CallSite] = []
@@ -111,7 +135,8 @@ class CallGraph:
                                 kind = "cha"
                     # calling through a class object of type Type[X]: cls(...) handled below
                 # cls(...) / self.__class__(...) / type(self)(...)
-                if not callees and isinstance(n.func, ast.Name) and n.func.id == "cls" and f.cls:
+                if isinstance(n.func, ast.Name) and n.func.id == "cls" and f.cls:
+                    callees = []
                     for sub in prog.subclasses(f.cls.qual):
                         for t in self._ctor_targets(sub):
                             if t not in callees:
@@ -134,6 +159,16 @@ class CallGraph:
                                 mm = prog.lookup_method(cq, reg_sub[1])
                                 tg = [mm.qual] if mm else []
                             for t in tg:
+                                if t not in callees:
+                                    callees.append(t)
+                # a local bound from a registry:  cls_ = REG.get(k) / REG[k] / for k, cls_ in REG.items(): cls_(...)
+                if isinstance(n.func, ast.Name) and n.func.id not in ("cls", "self"):
+                    regs = self._local_registry_classes(f, n.func.id)
+                    if regs:
+                        kind = "registry"
+                        callees = [c for c in callees if c != n.func.id]
+                        for cq in regs:
+                            for t in self._ctor_targets(cq):
                                 if t not in callees:
                                     callees.append(t)
                 # reflective: getattr(self, f"...")(…) or getattr(self, "a" + x)
